@@ -64,3 +64,64 @@ def duplicate_lookup_complete(ctx, rid, f, call_b, call_t):
         run.finding(Finding(rid, f.id, "duplicate look-up does not see every entry of the slate id (restricted by log id or to outstanding entries)", site=c.site_of(f, call_b),
                             detail="outstanding_only roots: %s" % sorted("%s %s" % (r[0], r[1]) for r in roots)))
     return held
+
+
+def replay_guard(ctx, rid, f, ty, depth=0):
+    """Does step function f refuse a replay - an existing log entry of type `ty` for the slate id leads to
+    Err before any effect?  The test may sit in f itself or in a Result-returning helper that f calls and
+    whose Ok-edge guards every effect of f.  Returns (held, info)."""
+    from ..callgraph import non_production
+
+    LW = c.LW
+    UPD = LW + "internal::updater::"
+    TLT = LW + "types::TxLogEntryType"
+    fl = vf.get_flow(f)
+    rt = cfg.find_calls(f, UPD + "retrieve_txs")
+    keyed = [(b, t) for b, t in rt if vf.has_field(vf.origins(f, t["a"][2]), LW + "slate::Slate", "id")]
+    dup = []
+    for x in cfg.comparisons(f):
+        if x.op in ("Eq", "Ne"):
+            lo, ro = fl.of_operand(x.l), fl.of_operand(x.r)
+            for a, b_ in ((lo, ro), (ro, lo)):
+                if vf.has_field(a, LW + "types::TxLogEntry", "tx_type") and ("agg", TLT, ty) in b_ and vf.has_call(a, UPD + "retrieve_txs"):
+                    dup.append(x)
+    info = {"lookups_by_slate_id": len(keyed), "duplicate_tests": len(dup), "in": pp.short(f.id)}
+    if keyed and dup:
+        duplicate_lookup_complete(ctx, rid, f, keyed[0][0], keyed[0][1])
+        x = dup[0]
+        same = x.true_edges if x.op == "Eq" else x.false_edges
+        starts = [d for (_s, d) in same]
+        eb = set(ctx.eff.effect_blocks(f))
+        par = cfg.reach(f, starts=starts)
+        par2 = cfg.reach(f, starts=starts, cut_nodes=cfg.error_return_blocks(f))
+        held = bool(starts) and not any(b in par for b in eb) and not any(b in par2 for b in cfg.return_blocks(f))
+        e = c.after_call_edges(f, UPD + "retrieve_txs")
+        pre = cfg.reach(f, cut_edges=e)
+        held = held and not any(b in pre for b in eb)
+        info["site"] = x.site()
+        return held, info
+    if depth >= 2:
+        return False, info
+    # helper mode
+    for b, t in f.calls():
+        w = ctx.db.fns.get(t.get("f") or "")
+        if w is None or non_production(w.id) or not w.locals[0]["ty"].startswith("core::result::Result<"):
+            continue
+        if not (cfg.find_calls(w, UPD + "retrieve_txs") or depth == 0):
+            continue
+        if not cfg.find_calls(w, UPD + "retrieve_txs"):
+            continue
+        if ctx.eff.effect_blocks(w):
+            continue
+        h, winfo = replay_guard(ctx, rid, w, ty, depth + 1)
+        if not (winfo["lookups_by_slate_id"] and winfo["duplicate_tests"]):
+            continue
+        # the helper is given this step's slate
+        if not any(vf.has_field(vf.origins(f, a), LW + "slate::Slate", "id") or "slate::Slate" in (f.locals[vf.op_place(a)[0]]["ty"] if vf.op_place(a) else "") for a in t["a"]):
+            continue
+        g = cfg.call_guard(f, b)
+        eb = set(ctx.eff.effect_blocks(f))
+        held = h and bool(g.ok) and cfg.must_pass(f, g.ok, eb)[0]
+        winfo["via_helper"] = pp.short(w.id)
+        return held, winfo
+    return False, info
